@@ -94,6 +94,14 @@ def cells(tier, seed):
                 out.append({"kind": "factor", "graph": gid, "name": name, "cat": k, "depth": d})
         for sp in SPECIALS:
             out.append({"kind": "special", "name": sp, "cat": k, "depth": 3 if (q or k != cats[0]) else 4})
+    # naming cells: how the random-variable name is given (explicit name= / inferred from the variable the object is
+    # assigned to) x when the name is first read; one cell per (world, focus original, first operation on the focus)
+    for wid in NAMING_ORDER:
+        for focus in NAMING_FOCUS[wid]:
+            d = NAMING_DEPTH[wid][0 if q else 1]
+            for first in range(naming_first_ops(wid, focus)):
+                out.append({"kind": "naming", "world": wid, "focus": focus, "first": first, "cat": cats[0], "depth": d,
+                            "routes": "quick" if q else "all"})
     if q:
         out.append({"kind": "horizon", "graph": "G1", "cat": cats[0], "n": 200})
     else:
@@ -111,7 +119,7 @@ class World:
     """objs[0] is the original; objs[1:ntracked] are tracked-only helpers/factors (never operation targets,
     except helper distributions used as arguments of model(dist)); objs[ntracked:] is the pool."""
 
-    def __init__(self, cell):
+    def __init__(self, cell, _given=None):
         self.cell = cell
         k = cell["cat"]
         self.objs = []
@@ -121,6 +129,8 @@ class World:
         self.vals = {}
         self.valsB = {}
         self.graph = None
+        self.how = {}        # pool index -> operation that created it
+        self.arg = {}        # pool index -> argument of that operation
         if cell["kind"] in ("joint", "factor"):
             g = GR.GRAPHS[cell["graph"]]
             self.graph = g
@@ -137,15 +147,25 @@ class World:
                 self.add(_b.factors[cell["name"]], "original")
                 for _m in _b.models.values():
                     self.add(_m, "tracked")
+        elif cell["kind"] == "naming":
+            # baseline route: explicit name=; variant routes hand in the originals made inside their naming frame
+            _l = _given if _given is not None else NAMING_FRAMES[cell["world"]](k, "explicit", lambda _d: _d)
+            self.orig_names = [cell["focus"]] + [n for n in _l if n != cell["focus"]]
+            for n in self.orig_names:
+                self.add(_l[n], "original" if n == cell["focus"] else "tracked")
+            self.vals, self.valsB = naming_values(cell["world"], k)
         else:
             self.special(cell["name"], k)
         self.ntracked = len(self.objs)
 
-    def add(self, obj, role, src=None):
+    def add(self, obj, role, src=None, how=None, arg=None):
         self.objs.append(obj)
         self.role.append(role)
         self.src.append(src)
         self.fp.append(None)
+        if how is not None:
+            self.how[len(self.objs) - 1] = how
+            self.arg[len(self.objs) - 1] = arg
 
     def truncate(self, n):
         del self.objs[n:], self.role[n:], self.src[n:], self.fp[n:]
@@ -210,6 +230,167 @@ class World:
             self.use_condB = True
         else:
             raise ValueError(name)
+
+
+
+# ----------------------------------------------------------------------------------------
+# naming worlds: the same small models built with explicit name= or with names inferred from the variables
+# ----------------------------------------------------------------------------------------
+# CUQIpy infers a missing name lazily, at the first look-up, by walking the call stack from the outermost frame inwards
+# for a local variable that IS the object (names starting with self/cls/obj/var/_ are ignored).  A naming frame below
+# creates the originals as local variables whose names are the intended random-variable names and then runs the whole
+# history INSIDE that frame (continuation ``_body``), so that during every look-up exactly one admissible variable
+# refers to each un-named original; everything deeper holds library objects only in obj*/_* names or containers.
+def _kw(how):
+    return (lambda n: {"name": n}) if how == "explicit" else (lambda n: {})
+
+
+def _frame_N1(k, how, _body):
+    """chain:  x ~ Gaussian,  y | x ~ Gaussian(x, C)"""
+    import cuqi
+    D = cuqi.distribution
+    kw = _kw(how)
+    C2 = refs.spd_matrix(2, k)
+    x = D.Gaussian(refs.dyadic_vec(2, k + 1, scale=0.125), 1.0 + 0.5 * k, **kw("x"))
+    y = D.Gaussian(lambda x: x, C2, **kw("y"))
+    _l = {"x": x, "y": y}
+    if how == "explicit":
+        del x, y            # explicit route: no variable may supply a name that name= lost
+    return _body(_l)
+
+
+def _frame_N2(k, how, _body):
+    """two hyper-parameters:  s, t ~ Gamma,  z | s, t ~ Gaussian(0, (s + t) I)"""
+    import cuqi
+    D = cuqi.distribution
+    kw = _kw(how)
+    s = D.Gamma(1.0 + 0.5 * k, 1.0, **kw("s"))
+    z = D.Gaussian(np.zeros(2), lambda s, t: (s + t) * np.ones(2), **kw("z"))
+    t = D.Gamma(2.0, 1.0 + 0.25 * k, **kw("t"))
+    _l = {"z": z, "s": s, "t": t}
+    if how == "explicit":
+        del s, z, t
+    return _body(_l)
+
+
+def _frame_N3(k, how, _body):
+    """linear inverse problem:  x ~ Gaussian,  d ~ Gamma,  y | x, d ~ Gaussian(A x, 1/d)   (A@x reads the name of x)"""
+    import cuqi
+    D = cuqi.distribution
+    kw = _kw(how)
+    _A = cuqi.model.LinearModel(refs.full_matrix(2, 3, k))
+    x = D.Gaussian(refs.dyadic_vec(3, k + 2, scale=0.125), 0.5, **kw("x"))
+    d = D.Gamma(2.0, 1.0 + 0.5 * k, **kw("d"))
+    y = D.Gaussian(_A @ x, lambda d: 1.0 / d, **kw("y"))
+    _l = {"y": y, "x": x, "d": d}
+    if how == "explicit":
+        del x, d, y
+    return _body(_l)
+
+
+NAMING_FRAMES = {"N1": _frame_N1, "N2": _frame_N2, "N3": _frame_N3}
+NAMING_ORDER = ["N1", "N2", "N3"]
+# parameters of each focus original (conditioning variables + own name) - fixes the size of the root alphabet
+NAMING_FOCUS = {"N1": {"y": 2, "x": 1}, "N2": {"z": 3, "s": 1}, "N3": {"y": 3, "d": 1}}
+NAMING_DEPTH = {"N1": (3, 4), "N2": (3, 3), "N3": (2, 3)}       # (quick, thorough)
+
+
+def naming_first_ops(wid, focus):
+    """size of the root alphabet of a focus original: to_likelihood, call0, join + all non-empty parameter subsets"""
+    return 3 + (2 ** NAMING_FOCUS[wid][focus] - 1)
+
+
+def naming_values(wid, k):
+    pos = lambda v: np.abs(v) + 0.25  # noqa
+    if wid == "N1":
+        return ({"x": refs.dyadic_vec(2, k), "y": refs.dyadic_vec(2, k + 3)},
+                {"x": refs.dyadic_vec(2, k + 5), "y": refs.dyadic_vec(2, k + 6)})
+    if wid == "N2":
+        return ({"z": refs.dyadic_vec(2, k + 3), "s": GR.H3[0][k], "t": GR.H3[1][k]},
+                {"z": refs.dyadic_vec(2, k + 6), "s": GR.H3[1][k], "t": GR.H3[2][k]})
+    if wid == "N3":
+        return ({"y": refs.dyadic_vec(2, k + 3), "x": refs.dyadic_vec(3, k), "d": GR.H3[0][k]},
+                {"y": refs.dyadic_vec(2, k + 6), "x": refs.dyadic_vec(3, k + 4), "d": GR.H3[1][k]})
+    raise ValueError(wid)
+
+
+def naming_ops_for(w, i):
+    """Alphabet of a naming cell for target i (the focus original or a pool member), read off the BASELINE world:
+    condition on every non-empty subset of its parameters, condition on nothing, to_likelihood, and ``join`` = build a
+    JointDistribution from the (possibly pre-conditioned) object and the other originals."""
+    import cuqi
+    obj = w.objs[i]
+    kd = kind_of(obj)
+    names = guard(lambda: list(obj.get_parameter_names()))
+    if isinstance(names, tuple) or kd in ("model", "other"):
+        return []
+    ops = []
+    injoint = naming_join_root(w, i) is not None
+    if kd == "dist" and not injoint and not isinstance(obj, cuqi.distribution.JointDistribution):
+        nm = guard(lambda: obj.name)
+        if isinstance(nm, str) and nm in w.vals:
+            ops.append(("to_likelihood", i, nm))
+    ops.append(("call0", i, None))
+    if kd in ("dist", "lik", "eval") and not injoint:
+        ops.append(("join", i, tuple(range(1, w.ntracked))))
+    for S in cond_subsets([n for n in names if n in w.vals]):
+        ops.append(("cond", i, S))
+    return ops
+
+
+def naming_join_root(w, j):
+    """index of the pool member created by ``join`` that j descends from (j itself included), or None"""
+    while j is not None and j >= w.ntracked:
+        if w.how.get(j) == "join":
+            return j
+        j = w.src[j]
+    return None
+
+
+def naming_reference(w, j, kinds):
+    """What the history alone says about object j:  (expected name or None, expected parameter names or None,
+    expected set of density names of a joint or None).  ``kinds`` = kind_of every object of the run under test."""
+    if j < w.ntracked:
+        return w.orig_names[j], None, None
+    jr = naming_join_root(w, j)
+    if jr is None:
+        # conditioned copy / likelihood / evaluated density of a plain density: the name of its source
+        if w.how.get(j) in ("cond", "call0", "to_likelihood") and kinds[j] in ("dist", "lik", "eval"):
+            return naming_reference(w, w.src[j], kinds)[0], None, None
+        return None, None, None
+    # descends from JointDistribution(target, *other originals): members keep their names whatever is conditioned
+    tgt = w.src[jr]
+    members = [(naming_reference(w, tgt, kinds)[0], kinds[tgt])] + [(w.orig_names[m], kinds[m]) for m in range(1, w.ntracked)]
+    if any(n is None for n, _ in members):
+        return None, None, None
+    fixed = set()
+    jj = j
+    while jj != jr:
+        if w.how.get(jj) == "cond":
+            fixed.update(w.arg[jj])
+        jj = w.src[jj]
+    pars = tuple(n for n, kd in members if kd == "dist" and n not in fixed)
+    name = pars[0] if (kinds[j] == "dist" and len(pars) == 1) else None
+    return name, pars, (frozenset(n for n, _ in members) if kinds[j] == "joint" else None)
+
+
+def naming_run(cell, _l, history, t0):
+    """Execute ``history`` on the originals ``_l`` of a naming frame; nothing is observed before step t0; all live
+    objects are fingerprinted immediately before step t0 (if t0 < len(history)) and at the end."""
+    w = World(cell, _given=_l)
+    light = cell.get("routes") != "all"
+    outs, mid, lazy = [], None, None
+    for t, op in enumerate(history):
+        if t == t0:
+            mid = [fingerprint(_o, w, light) for _o in w.objs]
+        if t == 0:
+            lazy = getattr(w.objs[0], "_name", "?") is None      # coverage counter only, never a verdict
+        outcome, _new = do_op(w, op)
+        outs.append(outcome)
+        if _new is not None:
+            w.add(_new, "pool", op[1], op[0], op[2])
+    end = [fingerprint(_o, w, light) for _o in w.objs]
+    return outs, mid, end, [kind_of(_o) for _o in w.objs], [type(_o).__name__ for _o in w.objs], lazy
 
 
 # ----------------------------------------------------------------------------------------
@@ -278,11 +459,26 @@ def args_for(names, vals):
     return {n: GR.copy_val(vals[n]) for n in names}
 
 
-def fingerprint(obj, w):
-    """Ordered list of (entry name, value).  Only public, behavioural observations."""
+LIGHT = ("class", "name", "parameter_names", "conditioning_variables", "logdA", "densities_by_name")
+
+
+def fingerprint(obj, w, light=False):
+    """Ordered list of (entry name, value).  Only public, behavioural observations.
+    ``light``: only the entries that involve random-variable names (LIGHT)."""
     import cuqi
     kd = kind_of(obj)
     fp = [("class", type(obj).__name__)]
+    if light and kd != "model":
+        fp.append(("name", guard(lambda: obj.name)))
+        names = guard(lambda: tuple(obj.get_parameter_names()))
+        fp.append(("parameter_names", names))
+        if hasattr(obj, "get_conditioning_variables"):
+            fp.append(("conditioning_variables", guard(lambda: tuple(obj.get_conditioning_variables()))))
+        a = args_for(names, w.vals) if (isinstance(names, tuple) and not (len(names) == 2 and names[0] == "exc")) else None
+        fp.append(("logdA", "n/a" if a is None else num(guard(lambda: obj.logd(**a)))))
+        if kd == "joint" and hasattr(obj, "get_density"):
+            fp.append(("densities_by_name", tuple((n, guard(lambda: type(obj.get_density(n)).__name__)) for n in sorted(w.vals))))
+        return fp
     if kd == "model":
         an = guard(lambda: tuple(cuqi.utilities.get_non_default_args(obj)))
         fp.append(("argument_names", an))
@@ -344,6 +540,9 @@ def fingerprint(obj, w):
             fp.append(("cond_probe_gradient", num(r[3])))
         else:
             fp.append(("cond_probe_class", r))
+    # which random variables a joint holds a density for (free or fixed), by public look-up
+    if kd == "joint" and hasattr(obj, "get_density"):
+        fp.append(("densities_by_name", tuple((n, guard(lambda: type(obj.get_density(n)).__name__)) for n in sorted(w.vals))))
     return fp
 
 
@@ -455,7 +654,9 @@ def do_op(w, op):
                 guard(lambda: obj.sample(3, rng=np.random.RandomState(9)))
             return "reads", None
         if name == "to_likelihood":
-            return "to_likelihood", obj.to_likelihood(GR.copy_val(v[obj.name]))
+            return "to_likelihood", obj.to_likelihood(GR.copy_val(v[arg if arg is not None else obj.name]))
+        if name == "join":
+            return "join", cuqi.distribution.JointDistribution(obj, *[w.objs[_j] for _j in arg])
         if name == "call0":
             return "call0", obj()
         if name == "enable_fd":
@@ -503,6 +704,8 @@ def op_str(w, op):
         s += "{%s}" % ",".join(arg)
     elif name == "apply":
         s += "(obj%d)" % arg
+    elif name == "join":
+        s += "(%s)" % ",".join("#%d" % _j for _j in arg)
     return s
 
 
@@ -515,6 +718,7 @@ class Explorer:
         self.w = None
         self.created = 0
         self.nfail = {}
+        self.outs = []       # outcomes of the operations of the current history (baseline world)
 
     def label(self):
         c = self.cell
@@ -522,6 +726,8 @@ class Explorer:
             return "joint %s" % c["graph"]
         if c["kind"] == "factor":
             return "factor %s.%s" % (c["graph"], c["name"])
+        if c["kind"] == "naming":
+            return "naming %s.%s" % (c["world"], c["focus"])
         return "special %s" % c["name"]
 
     def fresh(self):
@@ -602,8 +808,7 @@ class Explorer:
                     w.fp[_j] = fingerprint(w.objs[_j], w)
         nameprob = None
         if _new is not None:
-            w.add(_new, "pool", op[1])
-            w.__dict__.setdefault("how", {})[len(w.objs) - 1] = op[0]
+            w.add(_new, "pool", op[1], op[0], op[2])
             f1 = fingerprint(_new, w)
             f2 = fingerprint(_new, w)
             w.fp[-1] = f1
@@ -638,6 +843,82 @@ class Explorer:
                     nameprob = (n_src, n_new)
         return outcome, bad, nameprob
 
+    # ------------------------------------------------------------------------------------
+    # naming cells: the same history on every (how the name is given) x (when names are first read) route
+    # ------------------------------------------------------------------------------------
+    def naming_fail(self, w, h2, j, cls, entry, how, t0, msg):
+        L = len(h2)
+        read = "before-first-operation" if t0 == 0 else ("after-last-operation" if t0 >= L else "between-operations")
+        made = w.how.get(j, "original")
+        sig = "C11|%s|naming:%s|%s,name=%s,first-read=%s" % (cls, made, entry, how, read)
+        self.nfail[sig] = self.nfail.get(sig, 0) + 1
+        if self.nfail[sig] > 10:
+            self.res.count("failures_not_stored")
+            return
+        self.res.fail(sig, "[%s cat=%d] history %s with names given %s and first read %s (t0=%d): object #%d (%s, made by %s) %s"
+                      % (self.label(), self.cell["cat"], " ; ".join(op_str(w, o) for o in h2),
+                         "by name=" if how == "explicit" else "by the variables the objects are assigned to", read, t0, j, cls, made, msg),
+                      focus={"history": [op_str(w, o) for o in h2], "name_given": how, "first_read_before_step": t0, "object": j})
+
+    def naming_compare(self, w, h2, how, t0, fps, kinds, classes, skip=()):
+        """reference (history only) and differential (baseline fingerprints) oracles for one observation of all
+        live objects; returns the indices of the objects reported"""
+        res = self.res
+        reported = set()
+        for j in range(len(fps)):
+            if j in skip:
+                continue
+            got = dict(fps[j])
+            e_name, e_pars, e_dens = naming_reference(w, j, kinds)
+            res.evaluations += 1
+            msg = entry = None
+            if e_name is not None and got.get("name") != e_name:
+                entry, msg = "name", "reports name %r, its original is the random variable %r" % (got.get("name"), e_name)
+            elif e_pars is not None and got.get("parameter_names") != e_pars:
+                entry, msg = "parameter_names", "reports parameters %r; members and fixed variables of the joint give %r" \
+                    % (got.get("parameter_names"), e_pars)
+            elif e_dens is not None and frozenset(n for n, c in got.get("densities_by_name", ()) if isinstance(c, str)) != e_dens:
+                entry, msg = "densities_by_name", "answers get_density for %r; it was built from densities of %r" \
+                    % (sorted(n for n, c in got.get("densities_by_name", ()) if isinstance(c, str)), sorted(e_dens))
+            elif not (how == "explicit" and t0 == 0):        # (explicit, 0) is the baseline itself
+                present = set(n for n, _ in fps[j])
+                d = fp_diff([e for e in w.fp[j] if e[0] in present] if len(present) < len(w.fp[j]) else w.fp[j], fps[j])
+                res.evaluations += 1
+                if d is not None:
+                    entry = d.split(":")[0] if d.startswith("attr:") else d
+                    msg = "differs from the explicit-name / read-first route in '%s': %s -> %s" \
+                        % (d, _short(dict(w.fp[j]).get(d)), _short(got.get(d)))
+            if entry is not None:
+                reported.add(j)
+                self.naming_fail(w, h2, j, classes[j], entry, how, t0, msg)
+        return reported
+
+    def naming_routes(self, w, h2):
+        res = self.res
+        L = len(h2)
+        kinds0 = [kind_of(_o) for _o in w.objs]
+        classes0 = [type(_o).__name__ for _o in w.objs]
+        # the baseline (explicit names, everything read after every step) against the history-only reference
+        self.naming_compare(w, h2, "explicit", 0, w.fp, kinds0, classes0)
+        routes = [("inferred", t) for t in range(L + 1)]
+        routes += [("explicit", t) for t in (range(1, L + 1) if self.cell.get("routes") == "all" else [L])]
+        for how, t0 in routes:
+            frame = NAMING_FRAMES[self.cell["world"]]
+            outs, mid, end, kinds, classes, lazy = frame(self.cell["cat"], how, lambda _l: naming_run(self.cell, _l, h2, t0))
+            res.transitions += L
+            res.count("route:%s" % how)
+            if lazy:
+                res.count("route:name_unresolved_at_first_operation")
+            res.outcomes.add("route:%s:first-read-%s:%s" % (how, "before" if t0 == 0 else ("after" if t0 >= L else "between"),
+                                                         "lazy" if lazy else "resolved"))
+            if outs != self.outs:
+                t = min(i for i in range(L) if outs[i] != self.outs[i])
+                self.naming_fail(w, h2, h2[t][1], classes0[h2[t][1]], "outcome", how, t0,
+                                 "operation %s ends as %r, on the explicit-name / read-first route as %r" % (op_str(w, h2[t]), outs[t], self.outs[t]))
+                continue
+            seen = self.naming_compare(w, h2, how, t0, mid, kinds, classes) if mid is not None else ()
+            self.naming_compare(w, h2, how, t0, end, kinds, classes, skip=seen)
+
     def replay(self, history):
         """history on a fresh world, checks after every step: -> (world, first step with alteration or None, bad)"""
         w = self.fresh()
@@ -667,16 +948,27 @@ class Explorer:
             return
         targets = [0] + list(range(self.w.ntracked, len(self.w.objs)))
         allops = []
+        naming = self.cell["kind"] == "naming"
         for i in targets:
-            allops += ops_for(self.w, i)
+            allops += naming_ops_for(self.w, i) if naming else ops_for(self.w, i)
+        if naming and not history:
+            # the cell covers the sub-tree below ONE first operation; the size of the root alphabet is part of the bound
+            n_exp = naming_first_ops(self.cell["world"], self.cell["focus"])
+            if len(allops) != n_exp:
+                res.fail("C11|%s|naming:alphabet|parameter_names" % type(self.w.objs[0]).__name__,
+                         "[%s] the focus original offers %d operations, %d expected from its declared parameters: %s"
+                         % (self.label(), len(allops), n_exp, [op_str(self.w, o) for o in allops]))
+            allops = allops[self.cell["first"]:self.cell["first"] + 1]
         if not allops:
             res.traces += 1
             return
         for op in allops:
             w = self.w
+            self.outs = self.outs[:len(history)]
             n0 = len(w.objs)
             self.log.append(op_str(w, op))
             outcome, bad, nameprob = self.step(w, op)
+            self.outs.append(outcome)
             h2 = history + [op]
             if nameprob is not None:
                 sig = "C11|%s|%s|name-not-kept" % (type(w.objs[op[1]]).__name__, op[0])
@@ -710,6 +1002,8 @@ class Explorer:
             if res.sample is None and len(h2) == self.depth and len(w.objs) > n0:
                 res.sample = {"original": self.label(), "history": [op_str(w, o) for o in h2],
                               "objects": [type(_o).__name__ for _o in w.objs], "all_fingerprints_unchanged": True}
+            if naming:
+                self.naming_routes(w, h2)
             self.dfs(h2)
             self.w.truncate(n0)
 
